@@ -92,7 +92,48 @@ def run(rep, tier, seed, budget):
             continue
         res = driver.explore_parallel(fn, left * 0.5)
         rep.add_part(name, res, bounds)
+    # tables that change between calls: strict-encode under table A (fills every cache), switch to table B through the
+    # real set_semantic_constraints, strict-encode again: the second outcome must follow table B alone
+    WARM = ["C(F)(F)(F)F", "N(F)(F)F", "[NH4+]", "[Fe](F)F", "O=C=O"]
+    PROBE = ["C(F)(F)(F)F", "C(F)(F)F", "N(F)(F)(F)(F)F", "[NH4+]", "[Xe](F)F", "FOF", "C#N"]
+
+    def hist_path(eng, col):
+        ctx.reset()
+        bc = ctx.bc
+        A = {"C": fresh_int("aC", 0, 6), "N": fresh_int("aN", 0, 6), "N+1": 4, "O": 2, "F": 1, "?": fresh_int("aq", 0, 3)}
+        B = {"C": fresh_int("bC", 0, 6), "N": fresh_int("bN", 0, 6), "N+1": fresh_int("bNp", 0, 5), "O": 2, "F": 1, "?": fresh_int("bq", 0, 3)}
+        wi = int(fresh_int("warm", 0, len(WARM) - 1))
+        pi = int(fresh_int("probe", 0, len(PROBE) - 1))
+        bc.set_semantic_constraints(dict(A))
+        ench.run_encoder(ctx, WARM[wi], strict=True)
+        ench.run_encoder(ctx, PROBE[pi], strict=True)
+        bc.set_semantic_constraints(dict(B))
+        r1 = ench.run_encoder(ctx, PROBE[pi], strict=True)
+        if r1[0] == "exc":
+            col.error("encoder raised %r in the harness" % (r1[1],))
+            return
+        mol = read_smiles(PROBE[pi])
+        over = []
+        for i, a in enumerate(mol.atoms):
+            v = explicit_valence(mol, i)
+            k = table_key(a)
+            over.append(zint(B[k] if k in B else B["?"]) < int(v))
+        expected = z3.Or(over)
+        raised = r1[0] != "ok"
+        col.nontrivial((wi, pi, raised))
+        col.sample({"warm": WARM[wi], "probe": PROBE[pi], "strict_raises_under_B": raised})
+        m = eng.find_model([z3.Not(expected) if raised else expected])
+        if m is not None:
+            col.candidate({"prop": "C06", "kind": "strict_history", "table_a": table_model(m, A), "table_b": table_model(m, B),
+                           "warm": WARM[wi], "smiles": PROBE[pi]})
+
+    left = t_end - time.time()
+    if left > 5:
+        res = driver.explore_parallel(hist_path, left * 0.8)
+        rep.add_part("table change between calls: strict encode under A, set B, strict encode again: outcome follows B alone", res,
+                     {"tables": "A and B: C, N, ? (and N+1 in B) free", "warm-up": WARM, "probe": PROBE})
+
     rep.assumptions += ["the exact 'iff' is judged on non-aromatic inputs (bond orders are then read directly from the input by O-READ); for aromatic inputs only 'strict succeeds => same string as strict=False' and table-independence are judged",
-                        "table installed directly; stale-cache scenarios across table changes are C11's",
+                        "table installed directly; one table change between two strict calls is explored here; longer histories are C11's",
                         "non-interference is decided syntactically: no branch condition recorded during the strict=False call, and no part of its result, may mention a table variable"]
     return ctx.stubs
